@@ -2,8 +2,11 @@
 //
 // Bounded exhaustive exploration: every ordered pair (quick) and every ordered triple of a
 // reduced menu (thorough) of declaration carriers (UA sheet, user sheet, <style>, <link>,
-// @import, @media, nested rules, style attribute, presentational hints, non-matching rules and
-// media) declaring the same property on one probe element, in every container arrangement,
+// @import, @media, nested rules, rules with declarations of their own before / between / after
+// nested rules (also inside @media and in the other sheets), nested rules that are dropped
+// (invalid selector, unsupported pseudo-element), style attribute, presentational hints computed
+// from attributes and given by rules of the hint sheet, non-matching rules and media)
+// declaring the same property on one probe element, in every container arrangement,
 // against a reference comparator written from CSS Cascade 4 / CSS Nesting. Observed through
 // tree.NewHTML + tree.GetAllComputedStyles on the real code.
 package c03
@@ -110,6 +113,8 @@ func (c *check) Init(tier string, seed int64) engine.Space {
 			"one probe element per document; the cascade of an element does not depend on other elements",
 			"UA-origin !important, @layer, @scope, revert, media queries beyond media types and the forms sheet are outside the alphabet",
 			"a declaration written after a nested rule is only required to be ordered in one of the two ways the CSS Nesting drafts define",
+			"conditional group rules nested inside a style rule (p{@media print{…}}) are outside the alphabet: the implementation does not support them (their declarations are ignored wherever they stand)",
+			"for the properties whose hint is given by a rule of the hint sheet only (list-style-type, vertical-align, clear) only the cases holding the hint are explored",
 			"triples containing no presentational hint are explored with hints on only (hints off changes nothing for them but the absence of the hints sheet, which the pair space covers)",
 		},
 		BudgetS: map[string]float64{"quick": 200, "thorough": 1200}[tier],
@@ -296,9 +301,10 @@ func (c *check) runDoc(ctx *engine.Ctx, cfg config, d *docB, t texts, v variant)
 		}
 	}
 	ctx.Trans(int64(len(d.insts)))
+	tags := d.tags(recs, cfg.hints, cfg.device, v)
 	if pi != nil {
 		ctx.Case(napp >= 2, "panic")
-		ctx.Fail(engine.Failure{Clause: pi.Clause, Site: pi.Site, Features: d.tags(recs, cfg.hints, cfg.device, v), Case: desc, Detail: pi.Msg})
+		ctx.Fail(engine.Failure{Clause: pi.Clause, Site: pi.Site, Features: tags, Case: desc, Detail: pi.Msg})
 		return
 	}
 	// which carrier does the observed value belong to
@@ -334,6 +340,16 @@ func (c *check) runDoc(ctx *engine.Ctx, cfg config, d *docB, t texts, v variant)
 	}
 	if d.hint >= 0 && recs[d.hint].applies {
 		ctx.Count("hint-applies", 1)
+		if p.sheetHint {
+			ctx.Count("hint-given-by-a-rule-of-the-hint-sheet-applies", 1)
+		}
+	}
+	for _, t := range tags {
+		switch t {
+		case "decls-before-and-after-nested-rule", "decl-between-nested-rules", "nested-rule-in-media",
+			"decl-in-rule-with-invalid-nested-selector", "decl-after-nested-unsupported-pseudo-element":
+			ctx.Count("shape:"+t, 1)
+		}
 	}
 	if g == e0 || g == e1 {
 		return
@@ -365,7 +381,7 @@ func (c *check) runDoc(ctx *engine.Ctx, cfg config, d *docB, t texts, v variant)
 	if g >= -1 {
 		gs = name(g)
 	}
-	ctx.Fail(engine.Failure{Clause: clause, Site: "-", Features: d.tags(recs, cfg.hints, cfg.device, v), Case: desc,
+	ctx.Fail(engine.Failure{Clause: clause, Site: "-", Features: tags, Case: desc,
 		Detail: fmt.Sprintf("expected winner %s; computed value is that of %s", exp, gs)})
 }
 
